@@ -50,6 +50,7 @@ type CheckConfig struct {
 	MaxInstrs   int64             `json:"max_instrs,omitempty"`
 	TimeoutMs   map[string]int    `json:"solver_timeout_ms,omitempty"`
 	ReplayPaths map[string]int    `json:"replay_paths,omitempty"`
+	Manifest    map[string]string `json:"manifest,omitempty"`
 }
 
 type KnownFinding struct {
